@@ -1,0 +1,98 @@
+//! Verification hook (cargo feature `verif-trace`, off by default): when the environment variable
+//! `ENUM_TOOLS_VERIF_TRACE` names a file, every derive invocation appends one JSON line with the
+//! feature set before dependency resolution and the result of the resolution (enabled items, modes,
+//! `with_offset`).  Used by /verif to compare the implementation-shaped TLA+ model of the resolution
+//! with what the code actually decided.  Never changes the generated code.
+use crate::feature::as_str_fn::AsStrMode;
+use crate::feature::from_str_fn::FromStrFnMode;
+use crate::feature::from_str_trait::FromStrMode;
+use crate::feature::iter::IterMode;
+use crate::generator::features::Features;
+use crate::generator::Derive;
+use std::io::Write;
+
+pub(crate) struct Snapshot {
+    enabled: Vec<(&'static str, bool)>,
+    modes: [&'static str; 4],
+    with_offset: bool,
+}
+
+fn str_mode(auto: bool, m: bool) -> &'static str {
+    if auto {
+        "auto"
+    } else if m {
+        "match"
+    } else {
+        "table"
+    }
+}
+
+pub(crate) fn snapshot(f: &Features) -> Snapshot {
+    Snapshot {
+        enabled: vec![
+            ("as_str", f.as_str_fn.enabled),
+            ("from_str", f.from_str_fn.enabled),
+            ("into", f.into_fn.enabled),
+            ("MAX", f.max_const.enabled),
+            ("MIN", f.min_const.enabled),
+            ("next", f.next_fn.enabled),
+            ("next_back", f.next_back_fn.enabled),
+            ("try_from", f.try_from_fn.enabled),
+            ("Debug", f.debug_trait.enabled),
+            ("Display", f.display_trait.enabled),
+            ("FromStr", f.from_str_trait.enabled),
+            ("Into", f.into_trait.enabled),
+            ("IntoStr", f.into_str_trait.enabled),
+            ("TryFrom", f.try_from_trait.enabled),
+            ("iter", f.iter.enabled),
+            ("names", f.names.enabled),
+            ("range", f.range_fn.enabled),
+            ("table_enum", f.table_enum.enabled),
+            ("table_name", f.table_name.enabled),
+            ("table_range", f.table_range.enabled),
+        ],
+        modes: [
+            str_mode(f.as_str_fn.mode == AsStrMode::Auto, f.as_str_fn.mode == AsStrMode::Match),
+            str_mode(f.from_str_fn.mode == FromStrFnMode::Auto, f.from_str_fn.mode == FromStrFnMode::Match),
+            str_mode(f.from_str_trait.mode == FromStrMode::Auto, f.from_str_trait.mode == FromStrMode::Match),
+            match f.iter.mode {
+                IterMode::Auto => "auto",
+                IterMode::Range => "range",
+                IterMode::NextAndBack => "nab",
+                IterMode::Table => "table",
+                IterMode::TableInline => "inline",
+            },
+        ],
+        with_offset: f.table_range.with_offset,
+    }
+}
+
+fn json(s: &Snapshot) -> String {
+    let en: Vec<String> = s.enabled.iter().filter(|(_, e)| *e).map(|(n, _)| format!("\"{n}\"")).collect();
+    format!(
+        "{{\"en\":[{}],\"am\":\"{}\",\"fm\":\"{}\",\"tm\":\"{}\",\"im\":\"{}\",\"off\":{}}}",
+        en.join(","),
+        s.modes[0],
+        s.modes[1],
+        s.modes[2],
+        s.modes[3],
+        s.with_offset
+    )
+}
+
+pub(crate) fn emit(derive: &Derive, pre: &Snapshot, post: &Features) {
+    if let Ok(path) = std::env::var("ENUM_TOOLS_VERIF_TRACE") {
+        let line = format!(
+            "{{\"ev\":\"resolve\",\"enum\":\"{}\",\"gapless\":{},\"small\":{},\"range_on\":{},\"pre\":{},\"post\":{}}}\n",
+            derive.ident_enum,
+            derive.mode.is_gapless(),
+            derive.num_values * derive.repr_size_guessed <= 8,
+            post.range_fn.enabled,
+            json(pre),
+            json(&snapshot(post))
+        );
+        if let Ok(mut f) = std::fs::OpenOptions::new().create(true).append(true).open(path) {
+            let _ = f.write_all(line.as_bytes());
+        }
+    }
+}
